@@ -4,7 +4,7 @@ mutating op it also prints the strict-recovery outcome of the disk after each ac
 the model's prediction for every kill point of that op.
 -/
 import Driver.StoreEng
-import KyroModel.Persist.Model
+import KyroModel.Persist.Damage
 
 namespace Driver.PersistEng
 open KyroModel Driver
@@ -22,6 +22,7 @@ def showDocs (d : Docs) : String :=
 
 def showRecErr : RecErr → String
   | .noManifest => "err:no_manifest"
+  | .manifestUnreadable => "err:manifest_unreadable"
   | .snapshotUnreadable => "err:snapshot_unreadable"
   | .missingSegment _ => "err:missing_segment"
   | .corruptFrames _ => "err:corrupt_frames"
@@ -65,6 +66,57 @@ def showAct : Action → String
   | .unlinkWal n => s!"unlinkWal:{n}"
   | .unlinkSnap n => s!"unlinkSnap:{n}"
 
+/-- unknown file names (`?`) become names that are on no disk -/
+def parseName (s : String) (salt : Nat) : Option Nat :=
+  if s == "?" then some (1000000007 + salt) else s.toNat?
+
+def parseManifestView (s : String) : Option Manifest :=
+  match s.splitOn "/" with
+  | [sn, sq, segs] => do
+    let snap ← if sn == "-" then some none else (parseName sn 0).map some
+    let seq ← if sq == "-" then some none else sq.toNat?.map some
+    let segL ← if segs == "-" then some [] else
+      ((segs.splitOn ",").zipIdx.mapM fun (t, i) => parseName t (i + 1))
+    pure ⟨snap, seq, segL⟩
+  | _ => none
+
+/-- view text → damage (`none` when the model cannot predict: altered content, skipped) -/
+def parseView (v : String) : Option (Option Damage) :=
+  match v.splitOn ":" with
+  | ["mgone"] => some (some .manifestGone)
+  | ["m", "unparsable"] => some (some .manifestUnparsable)
+  | ["m", "outside"] => some none
+  | ["m", f] => (parseManifestView f).map fun m => some (.manifestIs m)
+  | ["wgone", n] => n.toNat?.map fun n => some (.walGone n)
+  | ["wopen", n] => n.toNat?.map fun n => some (.walOpenFails n)
+  | ["wsees", n, seqs, c] =>
+    match n.toNat?, parseNatList seqs, c.toNat? with
+    | some n, some sq, some c => some (some (.walSees n sq c))
+    | _, _, _ => none
+  | ["wsees", _, _, _, "alt"] => some none
+  | ["sgone", n] => n.toNat?.map fun n => some (.snapGone n)
+  | ["sbad", n] => n.toNat?.map fun n => some (.snapUnreadable n)
+  | ["sok", _] => some (some (.walGone 2000000011))      -- no effect
+  | ["salt", _] => some none
+  | ["skip"] => some none
+  | _ => none
+
+def showRecoverAfter (d : Disk) (dmg : Damage) : String :=
+  match recoverAfter d dmg with
+  | .ok (docs, _) => showDocs docs
+  | .error e => showRecErr e
+
+def sweep (d : Disk) (faults : String) : String :=
+  if faults == "-" then "" else
+  "#".intercalate ((faults.splitOn "#").map fun f =>
+    match f.splitOn "@" with
+    | [_, _, v] =>
+      match parseView v with
+      | some (some dmg) => showRecoverAfter d dmg
+      | some none => "unpredicted"
+      | none => "bad-view"
+    | _ => "bad-fault")
+
 def showOut : POut → String
   | .ok => "ok" | .full => "full" | .rejected => "rejected" | .bool b => showBool b
   | .count n => toString n | .err => "err"
@@ -87,7 +139,7 @@ def step (st : Option St) (line : String) : Option St × String :=
   | _, none => (none, "bad-op:no-cfg")
   | _, some s0 =>
     let s : St := { s0 with nums := StoreEng.addNums s0.nums ((field? fs "nums").getD "-") }
-    if s.down && op != "restart" && op != "disk" then (some s, "down") else
+    if s.down && op != "restart" && op != "disk" && op != "sweep" then (some s, "down") else
     match op with
     | "insert" =>
       match natField? fs "id", natListField? fs "stored", metaField? fs "m", field? fs "accept",
@@ -120,6 +172,10 @@ def step (st : Option St) (line : String) : Option St × String :=
         (some { s with eng := e, disk := s.disk.applyAll as, down := false },
           s!"ok acts={";".intercalate (as.map showAct)} rec={prefixOutcomes s.disk as}")
       | .error e => (some { s with down := true }, showRecErr e)
+    | "sweep" =>
+      match field? fs "faults" with
+      | some f => (some { s with down := true }, sweep s.disk f)
+      | none => (st, "bad-op")
     | "census" => (some s, showDocs s.eng.store.docs)
     | "disk" => (some s, showDisk s.disk)
     | _ => (st, "bad-op")
